@@ -10,7 +10,8 @@ UNIT = dict(
     fns={
         "Fallback::new": dict(),
         "FallbackError::clone@Clone": dict(file="error"),
-        "FallbackStrategy::clone@Clone": dict(rules=[("sub", "R10-arc-clone", r"Arc::clone\((\w+)\)", r"\1.vx_clone()", 5)]),
+        "FallbackStrategy::clone@Clone": dict(rules=[("sub", "R10-arc-clone", r"Arc::clone\((\w+)\)", r"\1.vx_clone()", -1),
+            ("sub", "R10-arc-clone", r"\b([fs])\.clone\(\)", r"\1.vx_clone()", -1)]),
         "Fallback::clone@Clone": dict(),
         "Fallback::poll_ready@Service": dict(rules=[("R10p", "FallbackError::Inner")]),
         "Fallback::call@Service": dict(rules=[
